@@ -33,5 +33,241 @@ theorem setLatPar_eq (L : Lattice α) (p : ParArgs α) :
 theorem setLatBase_eq (L : Lattice α) (B : Mat3 α) : L.setLatBase B = ofBase B := rfl
 
 end generic
+
+/-! ### over ℝ -/
+section real
+open Real
+
+@[simp] theorem elem_sqrt (x : ℝ) : (Elem.sqrt x : ℝ) = Real.sqrt x := rfl
+@[simp] theorem elem_cosd (x : ℝ) : (Elem.cosd x : ℝ) = Real.cos (x * π / 180) := rfl
+@[simp] theorem elem_sind (x : ℝ) : (Elem.sind x : ℝ) = Real.sin (x * π / 180) := rfl
+@[simp] theorem elem_acosd (x : ℝ) : (Elem.acosd x : ℝ) = Real.arccos x * 180 / π := rfl
+
+structure ValidCS (p : CellCS ℝ) : Prop where
+  a_pos : 0 < p.a
+  b_pos : 0 < p.b
+  c_pos : 0 < p.c
+  ha : p.sa * p.sa + p.ca * p.ca = 1
+  hb : p.sb * p.sb + p.cb * p.cb = 1
+  hg : p.sg * p.sg + p.cg * p.cg = 1
+  sa_pos : 0 < p.sa
+  sb_pos : 0 < p.sb
+  sg_pos : 0 < p.sg
+  hV : p.V * p.V = 1 + 2 * p.ca * p.cb * p.cg - p.ca * p.ca - p.cb * p.cb - p.cg * p.cg
+  V_pos : 0 < p.V
+
+theorem sgr_eq {p : CellCS ℝ} (h : ValidCS p) :
+    Real.sqrt (1 - (p.ca * p.cb - p.cg) / (p.sa * p.sb) * ((p.ca * p.cb - p.cg) / (p.sa * p.sb))) = p.V / (p.sa * p.sb) := by
+  have hsa := h.sa_pos.ne'
+  have hsb := h.sb_pos.ne'
+  have key : 1 - (p.ca * p.cb - p.cg) / (p.sa * p.sb) * ((p.ca * p.cb - p.cg) / (p.sa * p.sb)) = (p.V / (p.sa * p.sb)) ^ 2 := by
+    field_simp
+    linear_combination (p.sb ^ 2) * h.ha + (1 - p.ca ^ 2) * h.hb - h.hV
+  rw [key, Real.sqrt_sq]
+  exact div_nonneg h.V_pos.le (mul_pos h.sa_pos h.sb_pos).le
+
+/-- closed form of `stdbase` for valid data -/
+noncomputable def S0 (p : CellCS ℝ) : Mat3 ℝ :=
+  ⟨p.a * p.V / p.sa, p.a * (p.cg - p.ca * p.cb) / p.sa, p.cb * p.a, 0, p.b * p.sa, p.b * p.ca, 0, 0, p.c⟩
+
+theorem stdbase_eq {p : CellCS ℝ} (h : ValidCS p) (orient : Mat3 ℝ → Mat3 ℝ × Mat3 ℝ) :
+    (assemble p orient).stdbase = S0 p := by
+  have hsa := h.sa_pos.ne'
+  have hsb := h.sb_pos.ne'
+  have ha := h.a_pos.ne'
+  have hV := h.V_pos.ne'
+  simp only [assemble, stdbaseOf, S0, elem_sqrt]
+  rw [sgr_eq h]
+  apply Mat3.ext' <;> simp only [] <;> field_simp <;> ring
+
+theorem S0_gram {p : CellCS ℝ} (h : ValidCS p) :
+    (S0 p).mul (S0 p).transpose = metricsOf p.a p.b p.c p.ca p.cb p.cg := by
+  have hsa := h.sa_pos.ne'
+  apply Mat3.ext' <;> simp only [S0, Mat3.mul, Mat3.transpose, metricsOf]
+  · field_simp
+    linear_combination (p.a ^ 2) * h.hV + (p.a ^ 2 * p.cb ^ 2 - p.a ^ 2) * h.ha
+  · field_simp; ring
+  · ring
+  · field_simp; ring
+  · linear_combination (p.b ^ 2) * h.ha
+  · ring
+  · ring
+  · ring
+  · ring
+
+theorem S0_det (p : CellCS ℝ) (h : ValidCS p) : (S0 p).det = p.a * p.b * p.c * p.V := by
+  have hsa := h.sa_pos.ne'
+  simp only [S0, Mat3.det]; field_simp; ring
+
+/-- proper rotation: `Q·Qᵀ = 1`, `det Q = 1` -/
+structure IsRot (Q : Mat3 ℝ) : Prop where
+  orth : Q.mul Q.transpose = Mat3.one
+  det_one : Q.det = 1
+
+/-- the hypotheses of the C01 theorems: valid cosine/sine/volume data and a proper rotation -/
+structure Valid (p : CellCS ℝ) (Q : Mat3 ℝ) : Prop where
+  cs : ValidCS p
+  rot : IsRot Q
+
+theorem isRot_one : IsRot Mat3.one := by
+  constructor
+  · apply Mat3.ext' <;> simp [Mat3.mul, Mat3.transpose, Mat3.one]
+  · simp [Mat3.det, Mat3.one]
+
+theorem ofCS_base {p : CellCS ℝ} (h : ValidCS p) (Q : Mat3 ℝ) : (ofCS p Q).base = (S0 p).mul Q := by
+  have := stdbase_eq h (fun S => (Q, S.mul Q))
+  simp only [ofCS] at *
+  rw [← this]; rfl
+
+theorem ofCS_stdbase {p : CellCS ℝ} (h : ValidCS p) (Q : Mat3 ℝ) : (ofCS p Q).stdbase = S0 p :=
+  stdbase_eq h _
+
+theorem ofCS_baserot (p : CellCS ℝ) (Q : Mat3 ℝ) : (ofCS p Q).baserot = Q := rfl
+theorem ofCS_metrics (p : CellCS ℝ) (Q : Mat3 ℝ) :
+    (ofCS p Q).metrics = metricsOf p.a p.b p.c p.ca p.cb p.cg := rfl
+theorem ofCS_recbase (p : CellCS ℝ) (Q : Mat3 ℝ) : (ofCS p Q).recbase = (ofCS p Q).base.inv := rfl
+
+/-- `metrics = base · baseᵀ` -/
+theorem metrics_eq_gram {p : CellCS ℝ} {Q : Mat3 ℝ} (h : Valid p Q) :
+    (ofCS p Q).metrics = (ofCS p Q).base.mul (ofCS p Q).base.transpose := by
+  rw [ofCS_base h.cs, ofCS_metrics, Mat3.transpose_mul, Mat3.mul_assoc, ← Mat3.mul_assoc Q, h.rot.orth,
+    Mat3.one_mul, S0_gram h.cs]
+
+theorem base_det {p : CellCS ℝ} {Q : Mat3 ℝ} (h : Valid p Q) :
+    (ofCS p Q).base.det = p.a * p.b * p.c * p.V := by
+  rw [ofCS_base h.cs, Mat3.det_mul, S0_det p h.cs, h.rot.det_one, _root_.mul_one]
+
+theorem base_det_pos {p : CellCS ℝ} {Q : Mat3 ℝ} (h : Valid p Q) : 0 < (ofCS p Q).base.det := by
+  rw [base_det h]
+  exact mul_pos (mul_pos (mul_pos h.cs.a_pos h.cs.b_pos) h.cs.c_pos) h.cs.V_pos
+
+theorem base_mul_recbase {p : CellCS ℝ} {Q : Mat3 ℝ} (h : Valid p Q) :
+    (ofCS p Q).base.mul (ofCS p Q).recbase = Mat3.one := by
+  rw [ofCS_recbase]; exact Mat3.mul_inv (base_det_pos h).ne'
+
+theorem recbase_mul_base {p : CellCS ℝ} {Q : Mat3 ℝ} (h : Valid p Q) :
+    (ofCS p Q).recbase.mul (ofCS p Q).base = Mat3.one := by
+  rw [ofCS_recbase]; exact Mat3.inv_mul (base_det_pos h).ne'
+
+theorem frac_cart {p : CellCS ℝ} {Q : Mat3 ℝ} (h : Valid p Q) (u : Vec3 ℝ) :
+    (ofCS p Q).fractional ((ofCS p Q).cartesian u) = u := by
+  simp only [fractional, cartesian]
+  rw [Mat3.vecMul_mul, base_mul_recbase h, Mat3.vecMul_one]
+
+theorem cart_frac {p : CellCS ℝ} {Q : Mat3 ℝ} (h : Valid p Q) (r : Vec3 ℝ) :
+    (ofCS p Q).cartesian ((ofCS p Q).fractional r) = r := by
+  simp only [fractional, cartesian]
+  rw [Mat3.vecMul_mul, recbase_mul_base h, Mat3.vecMul_one]
+
+/-- pure algebra: `⟨u·B, v·B⟩ = u · (v · (B·Bᵀ))` -/
+theorem dot_vecMul_gram (B : Mat3 ℝ) (u v : Vec3 ℝ) :
+    Vec3.dot (Mat3.vecMul u B) (Mat3.vecMul v B) = Vec3.dot u (Mat3.vecMul v (B.mul B.transpose)) := by
+  simp only [Vec3.dot, Mat3.vecMul, Mat3.mul, Mat3.transpose]; ring
+
+/-- the lattice dot product is the Euclidean dot product of the Cartesian images -/
+theorem dot_eq {p : CellCS ℝ} {Q : Mat3 ℝ} (h : Valid p Q) (u v : Vec3 ℝ) :
+    (ofCS p Q).dot u v = Vec3.dot ((ofCS p Q).cartesian u) ((ofCS p Q).cartesian v) := by
+  simp only [dot, cartesian]
+  rw [dot_vecMul_gram, ← metrics_eq_gram h]
+
+/-! #### norm, dist, angle -/
+
+theorem vecMul_sub (u v : Vec3 ℝ) (B : Mat3 ℝ) :
+    Mat3.vecMul (Vec3.sub u v) B = Vec3.sub (Mat3.vecMul u B) (Mat3.vecMul v B) := by
+  simp only [Mat3.vecMul, Vec3.sub, Vec3.mk.injEq]; refine ⟨?_, ?_, ?_⟩ <;> ring
+
+theorem dot_self_nonneg (x : Vec3 ℝ) : 0 ≤ Vec3.dot x x := by
+  simp only [Vec3.dot]; nlinarith [mul_self_nonneg x.x, mul_self_nonneg x.y, mul_self_nonneg x.z]
+
+/-- Cauchy–Schwarz in ℝ³ (Lagrange identity) -/
+theorem cauchy_schwarz (x y : Vec3 ℝ) : (Vec3.dot x y) ^ 2 ≤ Vec3.dot x x * Vec3.dot y y := by
+  simp only [Vec3.dot]
+  nlinarith [sq_nonneg (x.x * y.y - x.y * y.x), sq_nonneg (x.x * y.z - x.z * y.x), sq_nonneg (x.y * y.z - x.z * y.y)]
+
+/-- the clip of `angle` is the identity on `⟨x,y⟩ / (‖x‖‖y‖)` -/
+theorem clip_cos (x y : Vec3 ℝ) :
+    max (min (Vec3.dot x y / (Real.sqrt (Vec3.dot x x) * Real.sqrt (Vec3.dot y y))) 1) (-1)
+      = Vec3.dot x y / (Real.sqrt (Vec3.dot x x) * Real.sqrt (Vec3.dot y y)) := by
+  have hn : 0 ≤ Real.sqrt (Vec3.dot x x) * Real.sqrt (Vec3.dot y y) :=
+    mul_nonneg (Real.sqrt_nonneg _) (Real.sqrt_nonneg _)
+  have habs : |Vec3.dot x y| ≤ Real.sqrt (Vec3.dot x x) * Real.sqrt (Vec3.dot y y) := by
+    rw [← Real.sqrt_mul (dot_self_nonneg x)]
+    exact Real.abs_le_sqrt (cauchy_schwarz x y)
+  have h1 : |Vec3.dot x y / (Real.sqrt (Vec3.dot x x) * Real.sqrt (Vec3.dot y y))| ≤ 1 := by
+    rw [abs_div, abs_of_nonneg hn]
+    exact div_le_one_of_le₀ habs hn
+  obtain ⟨hlo, hhi⟩ := abs_le.mp h1
+  rw [min_eq_left hhi, max_eq_left hlo]
+
+theorem norm_eq (L : Lattice ℝ) (u : Vec3 ℝ) :
+    L.norm u = Real.sqrt (Vec3.dot (L.cartesian u) (L.cartesian u)) := rfl
+
+/-- `norm` (computed through `base`) agrees with the metric tensor: `‖u‖² = u·G·u` -/
+theorem norm_sq {p : CellCS ℝ} {Q : Mat3 ℝ} (h : Valid p Q) (u : Vec3 ℝ) :
+    (ofCS p Q).norm u ^ 2 = (ofCS p Q).dot u u := by
+  rw [norm_eq, Real.sq_sqrt (dot_self_nonneg _), dot_eq h]
+
+theorem dist_eq (L : Lattice ℝ) (u v : Vec3 ℝ) :
+    L.dist u v = Real.sqrt (Vec3.dot (Vec3.sub (L.cartesian u) (L.cartesian v)) (Vec3.sub (L.cartesian u) (L.cartesian v))) := by
+  simp only [dist, norm, cartesian, vecMul_sub, elem_sqrt]
+
+/-- `angle` is the Euclidean angle of the Cartesian images (the clip to [−1, 1] is the identity) -/
+theorem angle_eq {p : CellCS ℝ} {Q : Mat3 ℝ} (h : Valid p Q) (u v : Vec3 ℝ) :
+    (ofCS p Q).angle u v =
+      Real.arccos (Vec3.dot ((ofCS p Q).cartesian u) ((ofCS p Q).cartesian v) /
+        (Real.sqrt (Vec3.dot ((ofCS p Q).cartesian u) ((ofCS p Q).cartesian u)) *
+         Real.sqrt (Vec3.dot ((ofCS p Q).cartesian v) ((ofCS p Q).cartesian v)))) * 180 / π := by
+  simp only [angle, elem_acosd]
+  rw [dot_eq h, norm_eq, norm_eq, clip_cos]
+
+/-! #### the base vectors have exactly the lengths and angles given -/
+
+theorem gram_entries (B : Mat3 ℝ) :
+    (B.mul B.transpose).a11 = Vec3.dot B.row1 B.row1 ∧ (B.mul B.transpose).a22 = Vec3.dot B.row2 B.row2 ∧
+    (B.mul B.transpose).a33 = Vec3.dot B.row3 B.row3 ∧ (B.mul B.transpose).a23 = Vec3.dot B.row2 B.row3 ∧
+    (B.mul B.transpose).a13 = Vec3.dot B.row1 B.row3 ∧ (B.mul B.transpose).a12 = Vec3.dot B.row1 B.row2 :=
+  ⟨rfl, rfl, rfl, rfl, rfl, rfl⟩
+
+theorem row_dots {p : CellCS ℝ} {Q : Mat3 ℝ} (h : Valid p Q) :
+    let B := (ofCS p Q).base
+    Vec3.dot B.row1 B.row1 = p.a * p.a ∧ Vec3.dot B.row2 B.row2 = p.b * p.b ∧ Vec3.dot B.row3 B.row3 = p.c * p.c ∧
+    Vec3.dot B.row2 B.row3 = p.b * p.c * p.ca ∧ Vec3.dot B.row1 B.row3 = p.a * p.c * p.cb ∧
+    Vec3.dot B.row1 B.row2 = p.a * p.b * p.cg := by
+  intro B
+  have hm := metrics_eq_gram h
+  rw [ofCS_metrics] at hm
+  obtain ⟨g11, g22, g33, g23, g13, g12⟩ := gram_entries B
+  refine ⟨?_, ?_, ?_, ?_, ?_, ?_⟩
+  · rw [← g11]; exact (congrArg Mat3.a11 hm).symm
+  · rw [← g22]; exact (congrArg Mat3.a22 hm).symm
+  · rw [← g33]; exact (congrArg Mat3.a33 hm).symm
+  · rw [← g23]; exact (congrArg Mat3.a23 hm).symm
+  · rw [← g13]; exact (congrArg Mat3.a13 hm).symm
+  · rw [← g12]; exact (congrArg Mat3.a12 hm).symm
+
+theorem row_norms {p : CellCS ℝ} {Q : Mat3 ℝ} (h : Valid p Q) :
+    let B := (ofCS p Q).base
+    Real.sqrt (Vec3.dot B.row1 B.row1) = p.a ∧ Real.sqrt (Vec3.dot B.row2 B.row2) = p.b ∧
+    Real.sqrt (Vec3.dot B.row3 B.row3) = p.c := by
+  intro B
+  obtain ⟨h1, h2, h3, -, -, -⟩ := row_dots h
+  exact ⟨by rw [h1, Real.sqrt_mul_self h.cs.a_pos.le], by rw [h2, Real.sqrt_mul_self h.cs.b_pos.le],
+    by rw [h3, Real.sqrt_mul_self h.cs.c_pos.le]⟩
+
+/-! #### reciprocal vectors -/
+
+theorem dot_recip_pair (R B : Mat3 ℝ) (hkl u : Vec3 ℝ) :
+    Vec3.dot (Mat3.vecMul hkl R.transpose) (Mat3.vecMul u B) = Vec3.dot hkl (Mat3.vecMul u (B.mul R)) := by
+  simp only [Vec3.dot, Mat3.vecMul, Mat3.mul, Mat3.transpose]; ring
+
+/-- the Cartesian reciprocal vector `h* = hkl · recbaseᵀ` pairs with direct-space vectors as `h*·cart u = hkl·u` -/
+theorem recip_pairing {p : CellCS ℝ} {Q : Mat3 ℝ} (h : Valid p Q) (hkl u : Vec3 ℝ) :
+    Vec3.dot (Mat3.vecMul hkl (ofCS p Q).recbase.transpose) ((ofCS p Q).cartesian u) = Vec3.dot hkl u := by
+  rw [cartesian, dot_recip_pair, base_mul_recbase h, Mat3.vecMul_one]
+
+theorem rnorm_eq (L : Lattice ℝ) (hkl : Vec3 ℝ) :
+    L.rnorm hkl = Real.sqrt (Vec3.dot (Mat3.vecMul hkl L.recbase.transpose) (Mat3.vecMul hkl L.recbase.transpose)) := rfl
+
+end real
 end Lattice
 end DS
